@@ -682,6 +682,11 @@ func readerLimitRule(w *World, r *Report, rule string) {
 			fns = append(fns, w.withPkgHelpers(f)...)
 		}
 	}
+	countLimitScan(w, r, rule, fns, "the reading code")
+}
+
+// countLimitScan: no order comparison of an integer count with a constant limit (beyond small arities) in fns.
+func countLimitScan(w *World, r *Report, rule string, fns []*ssa.Function, what string, wide ...bool) {
 	seen := map[*ssa.Function]bool{}
 	n := 0
 	for _, root := range fns {
@@ -708,8 +713,11 @@ func readerLimitRule(w *World, r *Report, rule string) {
 							continue
 						}
 						bt, ok := side[0].Type().Underlying().(*types.Basic)
-						if !ok || bt.Kind() != types.Int {
+						if !ok || (bt.Kind() != types.Int && !(len(wide) > 0 && wide[0] && bt.Info()&types.IsInteger != 0 && bt.Kind() != types.Uint8)) {
 							continue // runes, bytes, durations: not counts
+						}
+						if nt, isNamed := side[0].Type().(*types.Named); isNamed && nt.Obj().Pkg() != nil && nt.Obj().Pkg().Path() == "time" {
+							continue
 						}
 						if v := k.Int64(); v > 8 || v < -8 {
 							r.bad(rule, f, "count compared with a fixed limit", bo.Pos(), fmt.Sprintf("%s is compared with the constant %d: a text is treated differently once a count passes a fixed limit, so sufficiently large values (or preambles) are refused or cut short although they are well-formed", describeVal(nil, side[0], 0), v))
@@ -719,8 +727,8 @@ func readerLimitRule(w *World, r *Report, rule string) {
 			}
 		}
 	}
-	r.add(rule, nil, "order comparisons in the reading code", token.NoPos, "ok", fmt.Sprintf("%d comparisons examined", n))
-	r.floor(rule, "order comparisons in the reading code", n, 1)
+	r.add(rule, nil, "order comparisons in "+what, token.NoPos, "ok", fmt.Sprintf("%d comparisons examined", n))
+	r.floor(rule, "order comparisons in "+what, n, 1)
 }
 
 // atomSiteRule: what a single token means is decided in one place, the atom reader, case by case on the token's
@@ -1150,6 +1158,63 @@ func printEntryRule(w *World, r *Report, rule string) {
 		r.check(okV, rule, pf, "text returned by PRINT", ret.Pos(), "Pr_str(argument, true) itself", "PRINT returns "+describeVal(nil, v, 0)+" instead of the printer's text for its argument: a value whose text is altered on the way out (cut at a size limit, say) cannot be read back, and a placeholder that carries it silently reads as something else")
 	}
 	r.floor(rule, "returns of PRINT", n, 1)
+}
+
+// preambleValueVerbatimRule: the writer of the preamble prints each value of the table it was given, as it is:
+// the value that arrives at the reader is the caller's data, not a normalised, compacted or converted form of it.
+func preambleValueVerbatimRule(w *World, r *Report, rule string) {
+	r.rule(rule, "every value AddPreamble (and the functions of the package it is built from) hands to PRINT is an entry of the table it was given - read by the range over the table or by a lookup in it - and nothing computed from one: placeholder values are inserted as the data the caller supplied")
+	ap, pf := w.Fn("", "AddPreamble"), w.Fn("", "PRINT")
+	if ap == nil || pf == nil {
+		r.undecided(rule, nil, "AddPreamble / PRINT", token.NoPos, "function no longer resolves")
+		return
+	}
+	n := 0
+	for _, fn := range w.withPkgHelpers(ap) {
+		if fn == nil {
+			continue
+		}
+		for _, c := range staticCallsTo(fn, pf) {
+			n++
+			v := unboxed(c.Call.Args[0])
+			okV := false
+			var walk func(x ssa.Value, depth int) bool
+			walk = func(x ssa.Value, depth int) bool {
+				if depth > 4 {
+					return false
+				}
+				switch y := x.(type) {
+				case *ssa.Extract:
+					_, isNext := y.Tuple.(*ssa.Next)
+					_, isLk := y.Tuple.(*ssa.Lookup)
+					return isNext || isLk
+				case *ssa.Lookup:
+					return true
+				case *ssa.Parameter:
+					// a value handed on to a function of the package that prints it: what its callers hand over
+					if y.Parent() != ap && y.Parent() != nil {
+						for _, a := range w.callSiteArgs(y) {
+							if !walk(unboxed(a), depth+1) {
+								return false
+							}
+						}
+						return len(w.callSiteArgs(y)) > 0
+					}
+				case *ssa.Phi:
+					for _, op := range y.Edges {
+						if !walk(unboxed(op), depth+1) {
+							return false
+						}
+					}
+					return len(y.Edges) > 0
+				}
+				return false
+			}
+			okV = walk(v, 0)
+			r.check(okV, rule, fn, "value printed into the preamble", c.Pos(), "an entry of the caller's table, as it is", "the preamble line is made from "+describeVal(nil, c.Call.Args[0], 0)+", not from the table's entry itself: the value the program receives is a rewritten form of the data the caller supplied")
+		}
+	}
+	r.floor(rule, "values printed into the preamble", n, 1)
 }
 
 // atomLastRule: a token is an atom only when the dispatcher has found it to be nothing else: the atom reader
